@@ -276,9 +276,9 @@ func c10Run(w *core.W) {
 	// literals, slices with live data behind their end, empty in three ways, and results of earlier concatenations
 	w.Family("concatenation-chains")
 	{
-		pre := []string{"x = [1, 2, 3, 4]", "y = x[0:2]", "none = []", "e = x[0:0]", "z = [5] + [6]", "id = (v) -> v"}
-		opsA := []string{"x", "y", "x[1:3]", "none", "[]", "e", "[9]", "z", "x[0:2]", "id(x)", "id(y)"}
-		obs := "[x, y, z, e, none]"
+		pre := []string{"x = [1, 2, 3, 4]", "y = x[0:2]", "none = []", "e = x[0:0]", "z = [5] + [6]", "id = (v) -> v", "n = 1", "w = [n, n + 1, n + 2]", "v = [n, 2, 3, n + 3, n + 4]"}
+		opsA := []string{"x", "y", "x[1:3]", "none", "[]", "e", "[9]", "z", "x[0:2]", "id(x)", "id(y)", "w", "v"}
+		obs := "[x, y, z, e, none, w, v]"
 		chain := func(c []string) bool {
 			ch := strings.Join(c, " + ")
 			st := append(append([]string{}, pre...), "r = "+ch, obs, "q = "+ch, "[r, q]", obs, "h = () -> "+ch, "[h(), h()]", obs)
@@ -306,6 +306,7 @@ func c10Run(w *core.W) {
 			}
 		}
 		// the same with arrays past the sizes at which an implementation might extend in place (chains of 3)
+		obs = "[x, y, z, e, none]"
 		preB := []string{"sq = (n) -> {\n  r = []\n  for i <- fromto(0, n) r = r + [i]\n  r\n}", "x = sq(40)", "y = x[0:35]", "none = []", "e = x[0:0]", "z = sq(33) + [1]", "id = (v) -> v"}
 		opsB := []string{"x", "y", "z", "none", "[9]", "x[2:34]"}
 		for _, a := range opsB {
